@@ -575,6 +575,8 @@ func runRef(c *Case) outcome {
 			nativeCall(c, env, nativeMethod(c, env))
 		case "var":
 			refVar(c, env)
+		case "retain":
+			refRetain(c, env)
 		}
 		return "ok"
 	})
@@ -596,6 +598,9 @@ func nativeMethod(c *Case, env *nativeEnv) reflect.Value {
 
 // runTwin: script caller, script callee.
 func runTwin(c *Case) outcome {
+	if c.Dir == "retain" {
+		return twinRetain(c)
+	}
 	env := newEnv()
 	s := newScript()
 	s.renderCallee(c, "F")
@@ -717,6 +722,8 @@ func runImpl(c *Case) outcome {
 		})
 	case "var":
 		return implVar(c, env)
+	case "retain":
+		return implRetain(c, env)
 	}
 	return outcome{Status: "bad-dir"}
 }
